@@ -91,6 +91,8 @@ def finish(o: Outcome) -> int:
     known = load_known()
     REPLAYS.mkdir(exist_ok=True)
     EVID.mkdir(exist_ok=True)
+    for old in REPLAYS.glob(f"{o.pid}-{o.tier}-*.json"):
+        old.unlink()
     unknown: List[Violation] = []
     matched: Dict[str, int] = {}
     fdesc: Dict[str, dict] = {}
